@@ -134,6 +134,14 @@ func TestReplay(t *testing.T) {
 	if err != nil {
 		t.Fatal(err)
 	}
+	if cf.Sub == "precond" {
+		var pc sim.Case
+		if err := json.Unmarshal(cf.Case, &pc); err != nil {
+			t.Fatal(err)
+		}
+		checkPrecond(t, pc, false)
+		return
+	}
 	var c sim.Case
 	if err := json.Unmarshal(cf.Case, &c); err != nil {
 		t.Fatal(err)
